@@ -246,6 +246,20 @@ const splitLabelsCase = `{"kind": "splitlabels", "g": {"bs": 16, "org": [0, 0, 0
          {"k": "observe", "v": 0}],
  "pts": [[1, 1, 1], [3, 3, 3], [15, 1, 0]], "extra": [31, 32, 40, 41, 50]}`
 
+// body split (SplitLabels), on every run: body 30 = {30, 7} after a merge; (1) a split volume over two
+// supervoxels and two blocks (a run across the block face), (2) the whole rest of one supervoxel
+// (its index entry moves completely, no remain id is used), (3) an empty split volume: refused.
+// These are the steps Model.LabelMapRun evaluates with f_split and split_guard_b (C08_consistent_step).
+const bodySplitCase = `{"kind": "bodysplit", "g": {"bs": 16, "org": [0, 0, 0], "dim": [2, 1, 1]},
+ "layout": [{"p": [0, 0, 0], "d": [20, 8, 8], "l": 30}, {"p": [2, 2, 2], "d": [3, 3, 3], "l": 7}],
+ "ops": [{"k": "ingest", "v": 0, "via": "blocks", "blocks": [[0, 0, 0], [1, 0, 0]]},
+         {"k": "merge", "v": 0, "target": 30, "labels": [7]},
+         {"k": "split", "v": 0, "target": 30, "runs": [{"p": [14, 0, 0], "n": 4}, {"p": [2, 2, 2], "n": 2}]},
+         {"k": "split", "v": 0, "target": 30, "runs": [{"p": [4, 2, 2], "n": 1}, {"p": [2, 3, 2], "n": 3}, {"p": [2, 4, 2], "n": 3}, {"p": [2, 2, 3], "n": 3}, {"p": [2, 3, 3], "n": 3}, {"p": [2, 4, 3], "n": 3}, {"p": [2, 2, 4], "n": 3}, {"p": [2, 3, 4], "n": 3}, {"p": [2, 4, 4], "n": 3}]},
+         {"k": "split", "v": 0, "target": 30, "runs": [], "bad": "split-empty"},
+         {"k": "observe", "v": 0}],
+ "pts": [[1, 1, 1], [3, 2, 2], [15, 0, 0], [17, 0, 0], [4, 4, 4]], "extra": [31, 32, 33, 34, 35, 36, 37, 38, 39]}`
+
 const header = `From DV Require Import Base.Prelude Model.LabelMapRun.
 Local Open Scope N_scope.
 Local Notation H := Build_history.
@@ -348,6 +362,21 @@ func emitRun(o lib.Opts) {
 		e.run()
 		addHistory(&h, e)
 	}
+	// fixed corpus: body splits (SplitLabels)
+	{
+		var h History
+		if err := json.Unmarshal([]byte(bodySplitCase), &h); err != nil {
+			fmt.Fprintln(os.Stderr, "corpus:", err)
+			os.Exit(2)
+		}
+		e, err := newExec(&h)
+		if err != nil {
+			fmt.Fprintln(os.Stderr, "setup:", err)
+			os.Exit(2)
+		}
+		e.run()
+		addHistory(&h, e)
+	}
 	// dense chains of mapping operations on a child server process that is restarted
 	nc := 5
 	if o.Thorough() {
@@ -383,7 +412,7 @@ func emitRun(o lib.Opts) {
 		addHistory(h, e)
 	}
 	run.Finish("history",
-		"one fixed history of kind splitlabels (split-supervoxel with remain = next free label and no split, with split alone, with split == remain: defect C08-11); one fixed history of kind dagmerge (conflict-free repo merge whose non-first parent merged a body, read at the merge child: finding C08-dagmerge, class 12); histories of kind chain on a child server process (one block, 24-32 merge / cleave / renumber / split-supervoxel operations piled on the same few bodies, biased towards body ids that are also live supervoxel ids of another body, over 2-4 versions, the server process restarted twice and every version read again leaves first); random proofreading histories on 16^3-block labelmap instances (2-8 blocks; background, multi-block and sub-block supervoxels, labels up to 2^63): ingest by POST blocks / POST raw / ingest-supervoxels+indices+mappings, then about ten of merge, cleave, split-supervoxel, renumber, mutating raw write (boxes, wipe-outs, count-preserving rotations of a box across a block face), body split, a few requests violating a contract on purpose, interleaved with commit / newversion / branch; every read endpoint of the property observed after each request at the touched version and one more; a history is distinct by its operation multiset, geometry and content hash",
+		"one fixed history of kind splitlabels (split-supervoxel with remain = next free label and no split, with split alone, with split == remain: defect C08-11); one fixed history of kind bodysplit (SplitLabels on a two-supervoxel body: a split volume over two supervoxels and two blocks, the whole rest of one supervoxel, an empty volume; every accepted body split is also checked against the proved contract split_guard_b); one fixed history of kind dagmerge (conflict-free repo merge whose non-first parent merged a body, read at the merge child: finding C08-dagmerge, class 12); histories of kind chain on a child server process (one block, 24-32 merge / cleave / renumber / split-supervoxel operations piled on the same few bodies, biased towards body ids that are also live supervoxel ids of another body, over 2-4 versions, the server process restarted twice and every version read again leaves first); random proofreading histories on 16^3-block labelmap instances (2-8 blocks; background, multi-block and sub-block supervoxels, labels up to 2^63): ingest by POST blocks / POST raw / ingest-supervoxels+indices+mappings, then about ten of merge, cleave, split-supervoxel, renumber, mutating raw write (boxes, wipe-outs, count-preserving rotations of a box across a block face), body split, a few requests violating a contract on purpose, interleaved with commit / newversion / branch; every read endpoint of the property observed after each request at the touched version and one more; a history is distinct by its operation multiset, geometry and content hash",
 		tail)
 }
 
